@@ -399,8 +399,49 @@ def check_score_rhythm(inp):
     return None
 
 
+def check_score_grid(inp):
+    """ScoreRhythm lays the grid over the absolute time of the score: a chord that starts at time T and lasts d (both on
+    the tatum grid) gets the prescribed melody of the grid read cyclically from T to T + d, whatever the earlier chords
+    hold — including chords in which the rhythmed part is missing (seed C17-7 stopped the clock over those)"""
+    from musiclang import Melody, ScoreRhythm, Chord, Tonality, Silence
+    m = mk_metric(inp)
+    t = F(inp['tatum'])
+    n = len(inp['array'])
+    score = None
+    spans = []
+    T = 0
+    for specs, (k, has) in zip(inp['chords'], inp['layout']):
+        d = k * t
+        # the written rhythm of the part does not matter (the grid replaces it); one tatum per note keeps every
+        # duration inside the library's resolution, the silent part fixes the chord's length
+        mel = Melody([x.set_duration(t) for x in mk_notes(specs)[:k]])
+        parts = {'violin__0': Melody([Silence(d)])}
+        if has:
+            parts['piano__0'] = mel
+        score += Chord(0, tonality=Tonality(0))(**parts)
+        spans.append((T, T + k, has, specs))
+        T += k
+    out = ScoreRhythm({'piano__0': m})(score)
+    if len(out.chords) != len(spans):
+        return {'aspect': 'grid-chords', 'observed': len(out.chords), 'expected': len(spans)}
+    for ch, (i0, i1, has, specs) in zip(out.chords, spans):
+        if ch.duration != (i1 - i0) * t:
+            return {'aspect': 'grid-duration', 'observed': frac_str(ch.duration), 'expected': frac_str((i1 - i0) * t)}
+        if not has:
+            continue
+        used = specs[:i1 - i0]
+        virt = dict(inp, array=[inp['array'][i % n] for i in range(i0, i1)], notes=used)
+        if sum(virt['array']) == 0:
+            continue
+        r = match_elements(virt, mk_notes(used), elements(ch.score['piano__0']))
+        if r:
+            return {'aspect': 'grid-' + r[0], 'observed': r[1], 'expected': r[2]}
+    return None
+
+
 ORACLES = {'apply': check_apply, 'window': check_window, 'from_melody': check_from_melody, 'euclid': check_euclid,
-           'euclidian': check_euclidian, 'algebra': check_algebra, 'score_rhythm': check_score_rhythm}
+           'euclidian': check_euclidian, 'algebra': check_algebra, 'score_rhythm': check_score_rhythm,
+           'score_grid': check_score_grid}
 
 
 def run_oracle(ctx, name, inp, sig_fn, bucket):
@@ -720,5 +761,11 @@ def oracle(ctx):
         if it % 10 == 0:
             chords = [[list(x) for x in rand_melody_specs(rng, 'pitched')[0]] for _ in range(rng.randint(1, 3))]
             run_oracle(ctx, 'score_rhythm', dict(inp, chords=chords), sig_score_rhythm, 'score_rhythm')
+        if it % 10 == 5:
+            nch = rng.randint(2, 4)
+            chords = [[list(x) for x in rand_melody_specs(rng, 'pitched')[0]] for _ in range(nch)]
+            layout = [[rng.choice([steps, rng.randint(1, 2 * steps), rng.randint(1, steps)]), rng.random() < 0.7] for _ in range(nch)]
+            layout[-1][1] = True
+            run_oracle(ctx, 'score_grid', dict(inp, chords=chords, layout=layout), sig_score_rhythm, 'score_grid')
     # 4. the former FromMelody witness
     run_oracle(ctx, 'from_melody', WITNESS_FROM_MELODY, sig_from_melody, 'witness')
